@@ -16,15 +16,28 @@ Import ListNotations.
 Open Scope Z_scope.
 
 (* FULL STATEMENT (DESIGN C11): forall fs td ad, wire_ok fs -> ... with retrieval for every field that the application
-   dictionary does not gather into a repeating group.  Proved for every transport dictionary and NO application
-   dictionary (ad = None); with an application dictionary the same facts are covered by the correspondence stream
-   `parse` only (the parseGroup path is proved panic-free, c11_parse_total, but not characterised). *)
-Theorem c11_fidelity_partial : forall fs td, c11_wire_ok fs = true ->
-  exists m, do_parsing (ser fs) td None = Ok m /\                              (* accepted *)
+   dictionary does not gather into a repeating group.
+   Proved for every transport dictionary and every application dictionary under ad_no_group_start ad fs: no tag of the
+   message is declared as a NumInGroup field (a field with members) by the dictionary, for any MsgType - in particular
+   for ad = None (c11_fidelity_no_app_dictionary) and for dictionaries none of whose message definitions has a group on
+   a tag of the message (c11_no_group_start_sufficient).
+   MISSING CASE, precisely: messages in which a repeating group of the application dictionary actually starts
+   (parseGroup runs).  There the field array and raw bytes are still covered by the correspondence stream `parse` and
+   by c11_parse_total, and group extents by area `groups` (C13); a proof over this model would need the
+   characterisation of pg_loop (which fields are gathered under the group's tag). *)
+Theorem c11_fidelity_partial : forall fs td ad, c11_wire_ok fs = true -> ad_no_group_start ad fs ->
+  exists m, do_parsing (ser fs) td ad = Ok m /\                                (* accepted *)
     m_raw m = Some (ser fs) /\                                                 (* raw bytes unchanged *)
     m_fields m = map init_of fs ++ repeat tv_zero (count_byte SOH (ser fs) - length fs) /\   (* field order preserved *)
     forall t v, c11_last_value fs t = Some v -> fm_get_bytes (parsed_section td t m) t = Ok v.  (* retrievable from its section *)
 Proof. exact parse_fidelity. Qed.
+
+Theorem c11_fidelity_no_app_dictionary : forall fs, ad_no_group_start None fs.
+Proof. exact ad_no_group_start_none. Qed.
+
+Theorem c11_no_group_start_sufficient : forall d fs,
+  (forall mt defs t, In (mt, defs) d -> In t (map fst fs) -> gd_walk defs [t] = []) -> ad_no_group_start (Some d) fs.
+Proof. exact ad_no_group_start_some. Qed.
 
 (* a message of tag=value fields whose first three tags are not 8, 9, 35 is rejected (any dictionaries) *)
 Theorem c11_leading_order : forall fs td ad, Forall plain_field fs -> c11_lead_ok fs = false ->
@@ -33,8 +46,9 @@ Proof. exact parse_rejects_wrong_leading_order. Qed.
 
 (* a framed message whose BodyLength field is not the decimal byte count of its content is rejected
    (messages carrying XMLData included: the check is unconditional) *)
-Theorem c11_length : forall fs td f1 v9 rest, c11_framed fs = true -> fs = f1 :: (9, v9) :: rest ->
-  c11_declared v9 <> Some (c11_body_length fs) -> exists e, do_parsing (ser fs) td None = Err e.
+Theorem c11_length : forall fs td ad f1 v9 rest, c11_framed fs = true -> ad_no_group_start ad fs ->
+  fs = f1 :: (9, v9) :: rest ->
+  c11_declared v9 <> Some (c11_body_length fs) -> exists e, do_parsing (ser fs) td ad = Err e.
 Proof. exact parse_rejects_wrong_body_length. Qed.
 
 (* C09 for the parser: any bytes, any dictionaries: a value or an error, never a panic or a hang *)
